@@ -13,6 +13,7 @@ CONSTANTS
   STAMPCHECK = TRUE
   ACSTAMPCHECK = TRUE
   TRAVOFF = 0
+  RETAINCHECK = TRUE
 CONSTRAINT Report
 INVARIANT TraceInv
 CHECK_DEADLOCK FALSE
